@@ -1,5 +1,6 @@
 // Unit `depgraph` — C10 kernel: the recheck set of the language server is closed under the
 // import relation.  crates/samlang-services/src/dep_graph.rs, bodies extracted verbatim.
+#![feature(allocator_api)]
 use vstd::prelude::*;
 use std::collections::{HashMap, HashSet};
 use vstd::std_specs::iter::IteratorSpec;
@@ -170,7 +171,108 @@ proof fn lemma_contains_push<A>(s: Seq<A>, x: A, m: A)
 //@extract crates/samlang-services/src/dep_graph.rs :: struct DependencyGraph
 //@end
 
+// R6: the parsed module, projected to the one field the graph construction reads
+//@extract crates/samlang-ast/src/source.rs :: struct ModuleMembersImport
+//@fields imported_module
+//@end
+//@extract crates/samlang-ast/src/source.rs :: struct Module
+//@fields imports
+//@replace <T: Clone> =>  ## R6: the type parameter only occurs in dropped fields
+//@end
+
+// Trusted std contract missing from vstd: HashMap::get_mut (the returned reference is the stored value;
+// what is written through it is what the map holds afterwards)
+pub uninterp spec fn get_mut_final<K, V, Q: ?Sized>(old_m: Map<K, V>, new_m: Map<K, V>, k: &Q, nv: V) -> bool;
+pub broadcast axiom fn axiom_get_mut_final_deref<K, V>(old_m: Map<K, V>, new_m: Map<K, V>, k: &K, nv: V)
+  ensures #[trigger] get_mut_final::<K, V, K>(old_m, new_m, k, nv) <==> new_m == old_m.insert(*k, nv);
+pub assume_specification<'a, K: std::borrow::Borrow<Q> + Eq + std::hash::Hash, V, S: std::hash::BuildHasher, A: std::alloc::Allocator, Q: std::hash::Hash + Eq + ?Sized>[ HashMap::<K, V, S, A>::get_mut::<Q> ](m: &'a mut HashMap<K, V, S, A>, k: &Q) -> (r: Option<&'a mut V>)
+  ensures
+    vstd::std_specs::hash::obeys_key_model::<K>() && vstd::std_specs::hash::builds_valid_hashers::<S>() ==> (match r {
+      Some(v) => vstd::std_specs::hash::maps_borrowed_key_to_value(old(m)@, k, *v) && get_mut_final(old(m)@, final(m)@, k, *final(v)),
+      None => !vstd::std_specs::hash::contains_borrowed_key(old(m)@, k) && final(m)@ == old(m)@,
+    });
+
+/// module `m` has an import line naming `target`
+spec fn imports(m: Module, target: ModuleReference) -> bool {
+  exists|t: int| 0 <= t < m.imports@.len() && #[trigger] m.imports@[t].imported_module == target
+}
+
+// R3: `HashSet::from([x])`
+#[verifier::external_body]
+fn hashset_singleton(x: ModuleReference) -> (r: HashSet<ModuleReference>)
+  ensures r@ == Set::<ModuleReference>::empty().insert(x)
+{ unimplemented!() }
+
 impl DependencyGraph {
+//@extract crates/samlang-services/src/dep_graph.rs :: impl DependencyGraph / fn new
+//@ret r
+//@replace HashSet::from([*mod_ref]) => hashset_singleton(*mod_ref) ## R3: a one-element set
+//@replace Module<()> => Module ## R6: the type parameter only occurs in dropped fields
+//@contract
+    requires
+      vstd::std_specs::hash::obeys_key_model::<ModuleReference>(),
+    ensures
+      // every import line of every module is an edge of the forward graph and of the reverse graph
+      forall|k: ModuleReference, tgt: ModuleReference| sources@.contains_key(k) && #[trigger] imports(sources@[k], tgt)
+        ==> has_edge(r.forward@, k, tgt) && has_edge(r.reverse@, tgt, k),  // :no_import_edge_is_dropped
+//@before for (mod_ref, module) in sources {
+    proof { broadcast use axiom_get_mut_final_deref; }
+//@loop 0 iter=oit suffix=.iter()
+      invariant
+        vstd::std_specs::hash::obeys_key_model::<ModuleReference>(),
+        forall|j: int| 0 <= j < oit.seq().len() ==> sources@.contains_key(*(#[trigger] oit.seq()[j]).0) && sources@[*oit.seq()[j].0] == *oit.seq()[j].1,
+        forall|k: ModuleReference| sources@.contains_key(k) ==> exists|j: int| 0 <= j < oit.seq().len() && *(#[trigger] oit.seq()[j]).0 == k,
+        oit.seq().no_duplicates(),
+        forall|j: int, tgt: ModuleReference| 0 <= j < oit.index() && #[trigger] imports(*oit.seq()[j].1, tgt)
+          ==> has_edge(graph.forward@, *oit.seq()[j].0, tgt) && has_edge(graph.reverse@, tgt, *oit.seq()[j].0),
+      ensures
+        forall|k: ModuleReference, tgt: ModuleReference| sources@.contains_key(k) && #[trigger] imports(sources@[k], tgt)
+          ==> has_edge(graph.forward@, k, tgt) && has_edge(graph.reverse@, tgt, k),
+//@loopstart 0
+      let ghost reverse0 = graph.reverse@;
+      let ghost forward0 = graph.forward@;
+      let ghost oi = oit.index() as int;
+      proof { assert(*mod_ref == *oit.seq()[oi].0 && *module == *oit.seq()[oi].1); }
+//@loop 1 iter=iit
+        invariant
+          vstd::std_specs::hash::obeys_key_model::<ModuleReference>(),
+          graph.forward@ == forward0,
+          iit.seq().len() == module.imports@.len(),
+          forall|t: int| 0 <= t < iit.seq().len() ==> *(#[trigger] iit.seq()[t]) == module.imports@[t],
+          forall|t: int| 0 <= t < iit.index() ==> forward_set@.contains((#[trigger] module.imports@[t]).imported_module)
+            && has_edge(graph.reverse@, module.imports@[t].imported_module, *mod_ref),
+          forall|a: ModuleReference, b: ModuleReference| #[trigger] has_edge(reverse0, a, b) ==> has_edge(graph.reverse@, a, b),
+//@loopstart 1
+        let ghost rev_before = graph.reverse@;
+        let ghost ti = iit.index() as int;
+        proof { assert(*import == module.imports@[ti]); broadcast use axiom_get_mut_final_deref; }
+//@loopend 1
+        proof {
+          let tgt = import.imported_module;
+          assert(has_edge(graph.reverse@, tgt, *mod_ref));
+          assert forall|a: ModuleReference, b: ModuleReference| #[trigger] has_edge(rev_before, a, b) implies has_edge(graph.reverse@, a, b) by {}
+        }
+//@after graph.forward.insert(*mod_ref, forward_set);
+      proof {
+        // keys of a map are visited once: an earlier pair with the same key would be the same pair
+        assert forall|j: int| 0 <= j < oi implies *(#[trigger] oit.seq()[j]).0 != *mod_ref by {
+          if *oit.seq()[j].0 == *mod_ref {
+            assert(*oit.seq()[j].1 == sources@[*mod_ref] && *oit.seq()[oi].1 == sources@[*mod_ref]);
+            assert(oit.seq()[j] == oit.seq()[oi]);
+          }
+        }
+        assert forall|j: int, tgt: ModuleReference| 0 <= j < oi + 1 && #[trigger] imports(*oit.seq()[j].1, tgt)
+          implies has_edge(graph.forward@, *oit.seq()[j].0, tgt) && has_edge(graph.reverse@, tgt, *oit.seq()[j].0) by {
+          if j < oi {
+            assert(has_edge(forward0, *oit.seq()[j].0, tgt) && has_edge(reverse0, tgt, *oit.seq()[j].0));
+          } else {
+            let t = choose|t: int| 0 <= t < module.imports@.len() && #[trigger] module.imports@[t].imported_module == tgt;
+            assert(forward_set@.contains(module.imports@[t].imported_module));
+          }
+        }
+      }
+//@end
+
 //@extract crates/samlang-services/src/dep_graph.rs :: impl DependencyGraph / fn affected_set
 //@ret r
 //@contract
